@@ -8,7 +8,13 @@ Leg B: translators (constants + statements, every run) + correspondence: the str
        through the model extracted to OCaml (built here from the current Musl.vo), debug and release builds.
 Leg C: oracle on the implementation's strings: CPython's datetime (driver/c20_oracle.py) on every instant, plus an
        independently written Hinnant civil_from_days inside the harness; fields, microsecond truncation, RFC 3339
-       shape for years 0000..9999, byte order of consecutive instants, no panic."""
+       shape for years 0000..9999, byte order of consecutive instants, no panic.
+Leg D: statelessness ("for every instant": the text is a function of the instant alone).  harness h_time_state presents
+       instants as the FIRST call on a FRESH thread (boundary set: every listed boundary's day and its neighbours at
+       00:00:00 / 12:00 / 23:59:59, both ends of i64, a random sample), a few as the first call of a fresh PROCESS, and a
+       sample in two orders, with immediate repeats, and interleaved with same-day / 400-year-apart / 2^32-day-apart
+       neighbours on one thread; every call is compared with the stateless model (a Gallina function of the instant;
+       extracted OCaml, byte for byte) and the Python oracle, and all calls of one instant must agree."""
 import filecmp
 import glob
 import hashlib
@@ -355,6 +361,145 @@ def run_profile(ctx, rep, prof, h_time, model_exe, shards):
     return results
 
 
+
+# ------------------------------------------------------------------------------------------------
+# leg D: statelessness
+
+def state_scenarios(ctx, B):
+    """-> [(category, [(sec, nsec), ...])]: each entry is formatted on its own fresh thread, in order."""
+    rng = ctx.rng
+    th = ctx.thorough()
+    ok = lambda x: I64_MIN <= x <= I64_MAX   # noqa: E731
+    S = []
+    # (a) first call on a fresh thread: the day of every boundary and its neighbours, three times of day
+    bs = sorted(set(B.values()))
+    firsts = []
+    for b in bs:
+        day = b // 86400
+        for dd in (-1, 0, 1):
+            for i, (tod, ns2) in enumerate(TODS):
+                firsts.append(((day + dd) * 86400 + tod, ns2 if dd else SPECIAL_NS[(i * 5 + dd) % len(SPECIAL_NS)]))
+    firsts += [(I64_MIN, 0), (I64_MIN, 1), (I64_MIN, NS - 1), (I64_MIN + 1, 0), (I64_MAX, 0), (I64_MAX, NS - 1), (I64_MAX - 1, 0),
+               (0, 0), (-1, NS - 1), (-1, 0), (1, 1)]
+    n_rand = 600 if not th else 6000
+    for i in range(n_rand):
+        if i % 3 == 0:
+            sec = rng.randint(I64_MIN, I64_MAX)
+        elif i % 3 == 1:
+            sec = rng.choice([-1, 1]) * rng.randint(0, 2 ** rng.randint(1, 63) - 1)
+        else:
+            sec = rng.randint(ts(-100), ts(10100))
+        firsts.append((sec, rng.choice([0, rng.choice(SPECIAL_NS), rng.randint(0, NS - 1)])))
+    firsts = [x for x in dict.fromkeys(firsts) if ok(x[0])]
+    for x in firsts:
+        S.append(("fresh-thread-first-call", [x]))
+    # first call, then the same instant again, then a neighbour day, then the first again
+    key = [x for x in firsts if abs(x[0] - ts(2000, 3, 1)) <= 2 * 86400 or abs(x[0]) <= 2 * 86400 or x[0] in (I64_MIN, I64_MAX)]
+    for x in key + rng.sample(firsts, min(len(firsts), 150 if not th else 1500)):
+        y = (x[0] + 86400 if ok(x[0] + 86400) else x[0] - 86400, 0)
+        S.append(("fresh-thread-repeat", [x, x, y, x]))
+    # (b) a sample in two orders, with immediate repeats, and interleaved with confusable neighbours
+    pool = rng.sample(firsts, min(len(firsts), 400 if not th else 2500))
+    S.append(("one-thread-order-1", list(pool)))
+    S.append(("one-thread-order-2", list(reversed(pool))))
+    sh = list(pool)
+    rng.shuffle(sh)
+    S.append(("one-thread-immediate-repeats", [x for y in sh for x in (y, y)]))
+    conf = []
+    for x in sh[: (120 if not th else 800)]:
+        sec, nsec = x
+        same_day = ((sec // 86400) * 86400 + rng.randint(0, 86399), rng.randint(0, NS - 1))
+        for other in (same_day, (sec + 146097 * 86400 * rng.choice([-1, 1, 2]), nsec), (sec + (2 ** 32) * 86400, nsec),
+                      (sec - (2 ** 32) * 86400, nsec), (sec + (2 ** 31) * 86400, nsec), (sec + 86400, nsec), (sec - 1, NS - 1)):
+            if ok(other[0]):
+                conf += [x, other, x]
+    S.append(("one-thread-confusable-neighbours", conf))
+    return S
+
+
+def state_leg(ctx, rep, prof, bin_path, model_exe, scenarios, per_process):
+    """Run the scenarios (one process; plus `per_process` scenarios one process each) and compare every call with the
+    stateless model and the Python oracle.  A failing call is reported with the thread's call sequence up to it."""
+    work = os.path.join(ctx.work, "state-" + prof)
+    shutil.rmtree(work, ignore_errors=True)
+    os.makedirs(work)
+    runs = [("all", scenarios)] + [("proc%d" % i, [sc]) for i, sc in enumerate(per_process)]
+    errors = []
+    n_calls = 0
+    seen = {}                     # instant -> (string, context) : all calls of one instant must print the same
+    n_viol = 0
+    agg = {"threads": [0, 0, None], "processes": [0, 0, None]}      # calls, threads, first disagreement with the model
+
+    def report(kind, seq, j, got, detail, panic_msg=None, first_in_process=False):
+        nonlocal n_viol
+        n_viol += 1
+        if n_viol > 8:
+            return
+        sec, nsec = seq[j]
+        where = "call %d of a fresh thread%s" % (j + 1, " in a fresh process" if first_in_process else "")
+        rep.violation("%s: instant (%d s, %d ns) as %s printed %r — %s [%s build]" % (kind, sec, nsec, where, got, detail, prof),
+                      {"kind": kind, "sec": sec, "nsec": nsec, "impl": got, "detail": detail, "panic_message": panic_msg, "profile": prof,
+                       "thread_calls": [list(x) for x in seq[: j + 1]], "fresh_process": bool(first_in_process),
+                       "descriptors": ["P %d %d" % x for x in seq[: j + 1]]})
+
+    for tag, scs in runs:
+        text = "".join("T " + " ".join("%d %d" % x for x in seq) + "\n" for _, seq in scs)
+        flat = [(k, j) for k, (_, seq) in enumerate(scs) for j in range(len(seq))]
+        impl_out = os.path.join(work, tag + ".impl")
+        rc, out = run_bin(bin_path, [impl_out], input=text, timeout=1200)
+        if rc != 0:
+            errors.append("h_time_state[%s] rc=%d %s" % (tag, rc, vlib.last_error(out)))
+            continue
+        meta = [json.loads(l) for l in out.splitlines() if l.startswith("{")]
+        summ = [m for m in meta if m["k"] == "summary"]
+        panics = {(m["thread"], m["call"]): m["msg"] for m in meta if m["k"] == "panic"}
+        strs = open(impl_out, errors="replace").read().split("\n")[:-1]
+        if not summ or summ[0]["bad_lines"] or summ[0]["threads"] != len(scs) or len(strs) != len(flat):
+            errors.append("h_time_state[%s]: %s, %d strings for %d calls" % (tag, summ, len(strs), len(flat)))
+            continue
+        model = None
+        if model_exe:
+            mo = os.path.join(work, tag + ".model")
+            desc = "".join("P %d %d\n" % scs[k][1][j] for k, j in flat)
+            rc, out = vlib.sh([model_exe, prof, mo], 1200, input=desc)
+            if rc != 0:
+                errors.append("c20_model[%s] rc=%d %s" % (tag, rc, vlib.last_error(out)))
+            else:
+                model = open(mo, errors="replace").read().split("\n")[:-1]
+        n_calls += len(flat)
+        model_bad = None
+        for idx, (k, j) in enumerate(flat):
+            cat, seq = scs[k]
+            x, got = seq[j], strs[idx]
+            if got == "!unrepresentable":
+                continue
+            r = orc.check_one(x[0], x[1], got)
+            if r is not None:
+                report(r[0] if r[0] != "panic" else "panic", seq, j, got, r[1] if r[0] != "panic" else panics.get((k, j), "!panic"),
+                       panic_msg=panics.get((k, j)), first_in_process=(tag != "all" and j == 0))
+            elif x in seen and seen[x][0] != got:
+                report("state-dependent", seq, j, got, "the same instant printed %r as %s" % seen[x], first_in_process=(tag != "all" and j == 0))
+            seen.setdefault(x, (got, "call %d of a `%s` thread" % (j + 1, cat)))
+            if model is not None and model[idx] != got and model_bad is None:
+                model_bad = {"case": {"sec": x[0], "nsec": x[1], "profile": prof, "thread_calls": [list(y) for y in seq[: j + 1]],
+                                      "descriptors": ["P %d %d" % y for y in seq[: j + 1]]}, "impl": got, "model": model[idx]}
+        if model is not None:
+            grp = agg["threads" if tag == "all" else "processes"]
+            grp[0] += len(flat)
+            grp[1] += len(scs)
+            grp[2] = grp[2] or model_bad
+    for what, (nc, nt, bad) in agg.items():
+        if nc:
+            rep.tie("correspondence:stateless-model-vs-impl:fresh-%s:%s" % (what, prof), bad is None,
+                    "%d calls on %d fresh threads%s" % (nc, nt, " (one process each)" if what == "processes" else ""), bad)
+    if errors:
+        rep.tie("run:state-" + prof, False, "; ".join(errors[:3]))
+    rep.evaluations += n_calls
+    rep.traces_validated += n_calls if (model_exe and not errors) else 0
+    rep.count("statelessness:calls:" + prof, n_calls)
+    return n_calls
+
+
 def run(ctx):
     rep = Report(ctx)
     th = ctx.thorough()
@@ -364,7 +509,9 @@ def run(ctx):
                 "i32/u32 second and day limits), every day around them at three times of day, second roll-overs, both ends of "
                 "i64, pre-1970 instants with/without sub-second part, uniform and log-uniform random instants with special "
                 "sub-second values (x999, x500 rounding traps), a whole 400-year day sweep (quick) / every day 0001..9999 x 3 "
-                "(thorough). non-trivial = within 2 days of a listed boundary, or before 1970 with tv_nsec != 0; distinct = distinct instant")
+                "(thorough); statelessness: each boundary day +-1 at three times of day, both ends of i64 and a random sample as the first call on a fresh "
+                "thread (16 also as the first call of a fresh process), a sample in two orders, with immediate repeats and interleaved with same-day / "
+                "400-year / 2^32-day neighbours on one thread. non-trivial = within 2 days of a listed boundary, or before 1970 with tv_nsec != 0; distinct = distinct instant")
     rep.trusted_base = [
         "Coq 8.16.1 kernel + vm_compute (no native_compute)",
         "translators/time_consts.py (constants of datetime.rs) and translators/datetime_rs.py (every statement of From<SystemTime>::from and "
@@ -373,7 +520,7 @@ def run(ctx):
         "coq/theories/Time/MuslBase.v: the meaning given to Rust's integer operations per build profile (wrap / overflow panic / debug_assert), "
         "std's SystemTime::duration_since and core::fmt's `{}` / `{:0w}` of integers",
         "Coq extraction to OCaml + ocamlopt + ocaml/c20/main.ml (volume path only; cross-checked against vm_compute on the coq_eval subset every run)",
-        "harness h_time.rs (builds SystemTime = UNIX_EPOCH +/- Duration, calls the hook __verif_format_system_time)",
+        "harness h_time.rs / h_time_state.rs (build SystemTime = UNIX_EPOCH +/- Duration, call the hook __verif_format_system_time; the latter on a fresh thread per scenario)",
         "std: SystemTime::duration_since / Duration accessors (modelled by std_duration_since_epoch), fmt padding of integers",
         "Python oracle: CPython datetime.date.fromordinal + 400-year periodicity; Rust oracle: Hinnant civil_from_days",
     ]
@@ -411,8 +558,19 @@ def run(ctx):
         for l in lines:
             C.desc.append(("replay", l, 1 if l.startswith("P") else int(l.split()[3])))
         B = {}
+        seq = [tuple(x) for x in case.get("thread_calls") or []]
+        scenarios = [("replay", seq)] if seq else []
+        per_process = [("replay", seq)] if seq and case.get("fresh_process") else []
     else:
         C, B = generate(ctx, rep)
+        scenarios = state_scenarios(ctx, B)
+        lp = ts(2000, 3, 1)
+        per_process = [("fresh-process-first-call", [x]) for x in
+                       [(lp, 0), (lp + 43200, 500_000_500), (lp + 86399, NS - 1), (lp - 1, NS - 1), (lp + 86400, 0), (0, 0), (-1, NS - 1),
+                        (I64_MIN, 0), (I64_MAX, NS - 1), (ts(1970, 1, 1) + 86399, 1), (ts(0, 3, 1), 0), (ts(2400, 3, 1), 0), (ts(1600, 3, 1), 0),
+                        (ts(2000, 2, 29), 0), (ts(2100, 3, 1), 0), (ts(1, 1, 1), 0)]]
+    for cat, seq in scenarios + per_process:
+        rep.count("statelessness:" + cat, len(seq))
     for cat, _, n in C.desc:
         rep.count("instants:" + cat, n)
     total = C.total()
@@ -421,10 +579,13 @@ def run(ctx):
     # ---- implementation + model + oracles, per build profile
     all_fail_keys = {}
     for prof in ("debug", "release"):
-        ok, paths, log = cargo_build(ctx, "time", ["h_time"], release=(prof == "release"))
+        ok, paths, log = cargo_build(ctx, "time", ["h_time", "h_time_state"], release=(prof == "release"))
         if not ok:
             rep.tie("build:h_time-" + prof, False, vlib.last_error(log))
             continue
+        if scenarios:
+            nst = state_leg(ctx, rep, prof, paths["h_time_state"], model_exe, scenarios, per_process)
+            ctx.log("%s: statelessness leg, %d calls on %d fresh threads + %d fresh processes done" % (prof, nst, len(scenarios), len(per_process)))
         results = run_profile(ctx, rep, prof, paths["h_time"], model_exe, shards)
         ctx.log("%s: implementation, extracted model and both oracles on %d instants done" % (prof, total))
         n = 0
